@@ -20,13 +20,13 @@ AUDIT = {
         'documented refusal: assert!(m <= 64) outside the length limit of C08',
     'shift_and::Matches::next|overflow-add|1,x0':
         'i is an Enumerate index of the text: i + 1 <= text length <= usize::MAX',
-    'shift_and::Matches::next|overflow-sub|Add(1,x0).0,arg1.shiftand.m':
+    'shift_and::Matches::next|overflow-sub|P[1 + x0].0,arg1.shiftand.m':
         'the accept bit (bit m-1) can only be set after m shifts, i.e. after at least m symbols: i + 1 >= m',
     'bndm::BNDM::new|explicit-panic|begin_panic(lit)<&str>':
         'documented refusal: assert!(m <= 64) outside the length limit of C08',
     'bndm::Matches::next|overflow-sub|arg1.window,x0':
         'j <= m <= window: active has at most m live bits, loses the top one per step, so the inner loop runs at most m times; window starts at m and only grows',
-    'bndm::Matches::next|bounds|idx=Sub(arg1.window,x0).0,len=PtrMetadata(arg1.text)':
+    'bndm::Matches::next|bounds|idx=P[arg1.window + -1*x0].0,len=PtrMetadata(arg1.text)':
         'window <= text.len() by the outer loop guard and j >= 1',
     'bndm::Matches::next|overflow-sub|arg1.window,arg1.bndm.m':
         'window >= m (starts at m, only grows)',
@@ -34,7 +34,7 @@ AUDIT = {
         'j <= m <= 64',
     'bndm::Matches::next|overflow-sub|arg1.bndm.m,x0':
         'lastsuffix is a value of j taken when j != m and j <= m, so < m',
-    'bndm::Matches::next|overflow-add|Sub(arg1.bndm.m,x0).0,arg1.window':
+    'bndm::Matches::next|overflow-add|P[arg1.bndm.m + -1*x0].0,arg1.window':
         'window <= text.len() <= isize::MAX and the shift is <= 64',
     'bom::BOM::new|unwrap|expect(Iterator::max(Clone::clone(IntoIterator::into_iter(arg1))),lit)<C>':
         'documented refusal of the empty pattern (C08 quantifies over non-empty patterns)',
@@ -42,7 +42,7 @@ AUDIT = {
         'm = pattern length <= isize::MAX',
     'bom::BOM::new|overflow-add|1,x0':
         'm = pattern length <= isize::MAX',
-    'bom::BOM::new|index|index(x0,Sub(Add(1,x1).0,1).0)<std::vec::Vec<std::option::Option<usize>>>':
+    'bom::BOM::new|index|index(x0,P[x1].0)<std::vec::Vec<std::option::Option<usize>>>':
         'suff has m + 1 entries and i - 1 = j < m',
     'bom::BOM::new|index|index(x0,val(x1))<std::vec::Vec<vec_map::VecMap<usize>>>':
         'k_ is a suffix-link state < i - 1 + 1 = number of tables pushed so far (oracle construction invariant)',
@@ -52,13 +52,13 @@ AUDIT = {
         'k_ < i <= m and suff has m + 1 entries',
     'bom::BOM::new|unwrap|unwrap(VecMap::get(Index<I>>::index(x0,val(x1)),Borrow::borrow(x2)))<&usize>':
         'the loop left through `break` exactly when table[k].contains_key(a)',
-    'bom::BOM::new|index|index_mut(x0,Add(1,x1).0)<std::vec::Vec<std::option::Option<usize>>>':
+    'bom::BOM::new|index|index_mut(x0,P[1 + x1].0)<std::vec::Vec<std::option::Option<usize>>>':
         'i = j + 1 <= m, suff has m + 1 entries',
     'bom::BOM::delta|index|index(arg1.table,arg2)<std::vec::Vec<vec_map::VecMap<usize>>>':
         'guarded by q >= self.table.len() on the other branch',
     'bom::Matches::next|overflow-sub|arg1.window,x0':
         'j <= m (inner loop guard) and window >= m',
-    'bom::Matches::next|bounds|idx=Sub(arg1.window,x0).0,len=PtrMetadata(arg1.text)':
+    'bom::Matches::next|bounds|idx=P[arg1.window + -1*x0].0,len=PtrMetadata(arg1.text)':
         'window <= text.len() by the outer guard and j >= 1',
     'bom::Matches::next|overflow-add|1,x0':
         'j <= m',
@@ -66,21 +66,21 @@ AUDIT = {
         'window >= m',
     'bom::Matches::next|overflow-add|2,arg1.bom.m':
         'm <= isize::MAX',
-    'bom::Matches::next|overflow-sub|Add(2,arg1.bom.m).0,x0':
+    'bom::Matches::next|overflow-sub|P[2 + arg1.bom.m].0,x0':
         'j <= m + 1 after the inner loop',
-    'bom::Matches::next|overflow-add|Sub(Add(2,arg1.bom.m).0,x0).0,arg1.window':
+    'bom::Matches::next|overflow-add|P[2 + arg1.bom.m + -1*x0].0,arg1.window':
         'window, m <= isize::MAX',
     'horspool::Horspool::new|overflow-sub|slice::len(arg1),1':
         'non-empty pattern (quantifier of C08): m >= 1',
-    'horspool::Horspool::new|index|index(arg1,RangeTo::RangeTo{Sub(slice::len(arg1),1).0})<[u8]>':
+    'horspool::Horspool::new|index|index(arg1,RangeTo::RangeTo{P[-1 + slice::len(arg1)].0})<[u8]>':
         'm - 1 <= m = pattern.len()',
-    'horspool::Horspool::new|overflow-sub|Sub(slice::len(arg1),1).0,x0':
+    'horspool::Horspool::new|overflow-sub|P[-1 + slice::len(arg1)].0,x0':
         'j enumerates pattern[..m-1]: j <= m - 2',
     'horspool::Horspool::new|index|index_mut(x0,x1)<std::vec::Vec<usize>>':
         'shift has 256 entries, index is a u8',
     'horspool::Horspool::find_all|overflow-sub|arg1.m,1':
         'm >= 1 (non-empty pattern)',
-    'horspool::Horspool::find_all|bounds|idx=Sub(arg1.m,1).0,len=PtrMetadata(arg1.pattern)':
+    'horspool::Horspool::find_all|bounds|idx=P[-1 + arg1.m].0,len=PtrMetadata(arg1.pattern)':
         'm = pattern.len() >= 1',
     'horspool::Matches::next|bounds|idx=arg1.last,len=PtrMetadata(arg1.text)':
         'guarded by last < n (= text.len()) in the same condition / by the early return on last >= n',
@@ -88,33 +88,33 @@ AUDIT = {
         'shift has 256 entries, index is a u8',
     'horspool::Matches::next|overflow-add|Index<I>>::index(arg1.horspool.shift,arg1.text[arg1.last]),arg1.last':
         'last < n <= isize::MAX and shift <= m <= isize::MAX',
-    'horspool::Matches::next|overflow-sub|Add(1,arg1.last).0,arg1.horspool.m':
+    'horspool::Matches::next|overflow-sub|P[1 + arg1.last].0,arg1.horspool.m':
         'last starts at m - 1 and only grows',
     'horspool::Matches::next|index|index(arg1.horspool.shift,arg1.pattern_last)<std::vec::Vec<usize>>':
         'shift has 256 entries, index is a u8',
     'horspool::Matches::next|overflow-add|Index<I>>::index(arg1.horspool.shift,arg1.pattern_last),arg1.last':
         'last < n <= isize::MAX and shift <= m',
-    'horspool::Matches::next|index|index(arg1.text,Range::Range{Sub(Add(1,arg1.last).0,arg1.horspool.m).0,arg1.last})<[u8]>':
+    'horspool::Matches::next|index|index(arg1.text,Range::Range{P[1 + -1*arg1.horspool.m + arg1.last].0,arg1.last})<[u8]>':
         'i = last + 1 - m <= j = last < n',
     'horspool::Matches::next|overflow-sub|arg1.horspool.m,1':
         'm >= 1',
-    'horspool::Matches::next|index|index(arg1.horspool.pattern,RangeTo::RangeTo{Sub(arg1.horspool.m,1).0})<[u8]>':
+    'horspool::Matches::next|index|index(arg1.horspool.pattern,RangeTo::RangeTo{P[-1 + arg1.horspool.m].0})<[u8]>':
         'm - 1 <= pattern.len()',
     'kmp::KMP::delta|bounds|idx=arg2,len=PtrMetadata(arg1.pattern)':
         'evaluated only when q != m (short-circuit / loop exit) and q <= m is the automaton state invariant',
     'kmp::KMP::delta|overflow-sub|arg2,1':
         'loop body entered only with q == m >= 1 or q > 0',
-    'kmp::KMP::delta|index|index(arg1.lps,Sub(arg2,1).0)<std::vec::Vec<usize>>':
+    'kmp::KMP::delta|index|index(arg1.lps,P[-1 + arg2].0)<std::vec::Vec<usize>>':
         'q - 1 < m = lps.len()',
     'kmp::lps|bounds|idx=x0,len=PtrMetadata(arg1)':
         'q <= i < m (q counts matched prefix symbols)',
-    'kmp::lps|index|index(x0,Sub(x1,1).0)<std::vec::Vec<usize>>':
+    'kmp::lps|index|index(x0,P[-1 + x1].0)<std::vec::Vec<usize>>':
         'q - 1 < i < m = lps.len()',
     'kmp::lps|index|index_mut(x0,x1)<std::vec::Vec<usize>>':
         'i < m = lps.len()',
     'kmp::Matches::next|overflow-add|1,x0':
         'i is an Enumerate index',
-    'kmp::Matches::next|overflow-sub|Add(1,x0).0,arg1.kmp.m':
+    'kmp::Matches::next|overflow-sub|P[1 + x0].0,arg1.kmp.m':
         'q == m only after at least m symbols: i + 1 >= m',
 }
 
